@@ -11,26 +11,26 @@ open Cppcheck.Wire Cppcheck.Serialize
 
 /-- a message that `hasToLog` lets through unless its text was seen before -/
 def Passes (cfg : Cfg) (m : Msg) : Prop :=
-  m.severity ≠ .internal ∧ cfg.supG (sview cfg.simp m) = false ∧ cfg.key m ≠ []
+  m.severity ≠ .internal ∧ cfg.supG (sview cfg.simp m) = false ∧ cfg.keyGate m ≠ []
 
 theorem gate_cases (cfg : Cfg) (hE : cfg.emitDuplicates = false) (el : List Str) (m : Msg) :
     (m.severity = .internal ∧ gate cfg el m = (true, el)) ∨
     (m.severity ≠ .internal ∧ ¬ Passes cfg m ∧ gate cfg el m = (false, el)) ∨
-    (Passes cfg m ∧ cfg.key m ∈ el ∧ gate cfg el m = (false, el)) ∨
-    (Passes cfg m ∧ cfg.key m ∉ el ∧ gate cfg el m = (true, cfg.key m :: el)) := by
+    (Passes cfg m ∧ cfg.keyGate m ∈ el ∧ gate cfg el m = (false, el)) ∨
+    (Passes cfg m ∧ cfg.keyGate m ∉ el ∧ gate cfg el m = (true, cfg.keyGate m :: el)) := by
   unfold gate Passes
   by_cases h1 : m.severity = .internal
   · simp [h1]
   · by_cases h2 : cfg.supG (sview cfg.simp m) = true
     · simp [h1, h2]
     · have h2' : cfg.supG (sview cfg.simp m) = false := by simpa using h2
-      by_cases h3 : cfg.key m = []
+      by_cases h3 : cfg.keyGate m = []
       · simp [h1, h2', h3]
-      · have h3' : (cfg.key m).isEmpty = false := by
-          cases hk : cfg.key m with
+      · have h3' : (cfg.keyGate m).isEmpty = false := by
+          cases hk : cfg.keyGate m with
           | nil => exact absurd hk h3
           | cons _ _ => rfl
-        by_cases h4 : cfg.key m ∈ el
+        by_cases h4 : cfg.keyGate m ∈ el
         · simp [h1, h2', h3, h3', hE, h4]
         · simp [h1, h2', h3, h3', hE, h4]
 
@@ -41,9 +41,9 @@ structure Inv (cfg : Cfg) (All rem held : List Msg) (el : List Str) (sink : Sink
   nodup : sink.shown.Nodup
   reported : ∀ m ∈ sink.reported, m ∈ All ∧ Passes cfg m
   held_ok : ∀ m ∈ held, m ∈ All ∧ (m.severity = .internal ∨ Passes cfg m)
-  covered : ∀ m ∈ All, Passes cfg m → cfg.key m ∈ el ∨ m ∈ rem
-  el_ok : ∀ k ∈ el, (∃ m ∈ held, m.severity ≠ .internal ∧ cfg.key m = k) ∨
-            (∃ m ∈ All, Passes cfg m ∧ cfg.key m = k ∧ cfg.key2 m ∈ sink.shown)
+  covered : ∀ m ∈ All, Passes cfg m → cfg.keyGate m ∈ el ∨ m ∈ rem
+  el_ok : ∀ k ∈ el, (∃ m ∈ held, m.severity ≠ .internal ∧ cfg.keyGate m = k) ∨
+            (∃ m ∈ All, Passes cfg m ∧ cfg.keyGate m = k ∧ cfg.key2 m ∈ sink.shown)
   rem_sub : ∀ m ∈ rem, m ∈ All
 
 theorem Inv.init (cfg : Cfg) (All : List Msg) : Inv cfg All All [] [] {} where
@@ -197,7 +197,7 @@ theorem Inv.print {cfg : Cfg} (hE : cfg.emitDuplicates = false) {All rem held he
 
 /-- at the end (nothing left, nothing held) the printed texts are exactly the texts of the passing messages -/
 theorem Inv.final {cfg : Cfg} {All : List Msg} {el : List Str} {sink : Sink} (h : Inv cfg All [] [] el sink)
-    (hk : ∀ m ∈ All, ∀ m' ∈ All, cfg.key m = cfg.key m' → cfg.key2 m = cfg.key2 m') (k : Str) :
+    (hk : ∀ m ∈ All, ∀ m' ∈ All, cfg.keyGate m = cfg.keyGate m' → cfg.key2 m = cfg.key2 m') (k : Str) :
     k ∈ sink.shown ↔ ∃ m ∈ All, Passes cfg m ∧ cfg.key2 m = k := by
   constructor
   · intro hks
@@ -739,7 +739,7 @@ theorem logRun_single_eq (cfg : Cfg) (hE : cfg.emitDuplicates = false) (rs : Lis
       · exact h e
 
 theorem forwarded_key_ne (cfg : Cfg) (raws : F → List Raw) (files : List F) (hok : FilesOK cfg raws files)
-    (m : Msg) (hm : m ∈ forwarded cfg raws files) (hi : m.severity ≠ .internal) : cfg.key m ≠ [] := by
+    (m : Msg) (hm : m ∈ forwarded cfg raws files) (hi : m.severity ≠ .internal) : cfg.keyGate m ≠ [] := by
   simp only [forwarded, List.mem_flatMap] at hm
   obtain ⟨f, hf, hm⟩ := hm
   obtain ⟨r, hr, hcase⟩ := logRun_mem cfg false (raws f) {} m hm
@@ -792,7 +792,7 @@ theorem single_spec (cfg : Cfg) (hE : cfg.emitDuplicates = false) (raws : F → 
 /-- any system that ends with the gate/sink invariant on an empty pool agrees with the single executor -/
 theorem outcome_eq_single {β : Type} (cfg : Cfg) (hE : cfg.emitDuplicates = false) (raws : F → List Raw) (files : List F)
     (hok : FilesOK cfg raws files)
-    (hk : ∀ m ∈ forwarded cfg raws files, ∀ m' ∈ forwarded cfg raws files, cfg.key m = cfg.key m' → cfg.key2 m = cfg.key2 m')
+    (hk : ∀ m ∈ forwarded cfg raws files, ∀ m' ∈ forwarded cfg raws files, cfg.keyGate m = cfg.keyGate m' → cfg.key2 m = cfg.key2 m')
     (el : List Str) (sink : Sink) (hinv : Inv cfg (forwarded cfg raws files) [] [] el sink) :
     (sink.reported.map cfg.key2).Perm ((runSingle cfg raws files).sink.reported.map cfg.key2) ∧
     ∀ (obs : Msg → β), (∀ m ∈ forwarded cfg raws files, ∀ m' ∈ forwarded cfg raws files, cfg.key2 m = cfg.key2 m' → obs m = obs m') →
